@@ -9,12 +9,19 @@ from exactpack.solvers.sedov import Sedov
 def integrate(f, x):
     return float(np.trapezoid(f, x)) if hasattr(np, 'trapezoid') else float(np.trapz(f, x))
 def one(c):
+    r = one_(c, c.get('t_before'))
+    if c.get('t_before'):
+        # "at every time": an object that was evaluated at another time before must carry the same energy and mass as a fresh one
+        f = one_(c, None)
+        r['reused_vs_fresh'] = max(abs(r['E_over_eblast_minus_1'] - f['E_over_eblast_minus_1']), abs(r['M_over_M0_minus_1'] - f['M_over_M0_minus_1']),
+                                   abs(r['lo'] - f['lo']) / (abs(f['r2']) + 1e-300))
+    return r
+def one_(c, t_before):
     P = c['params']; t = c['t']
     s = Sedov(**P)
     j = P['geometry']; om = P.get('omega', 0.0); g = P['gamma']
-    if c.get('t_before'):
-        # the same solver object has been used at another time before ("at every time" holds for an object that is evaluated repeatedly)
-        s(np.array([0.3, 0.9]), c['t_before'])
+    if t_before:
+        s(np.array([0.3, 0.9]), t_before)
     probe = s(np.array([1.0]), t)
     r2 = float(s.r2)
     S = 1.0 if j == 1 else (2 * math.pi if j == 2 else 4 * math.pi)
@@ -41,7 +48,7 @@ def one(c):
     ahead = max(ahead, float(np.max(np.abs(np.asarray(sa['velocity'], float)))), float(np.max(np.abs(np.asarray(sa['pressure'], float)))))
     a5 = float(s.a5)
     return {'origin_singular': bool(s.solution_type == 'standard' and j < g * om * 1.05), 'a5': a5, 'type': s.solution_type, 'special': s.special_singularity, 'r2': r2, 'E_over_eblast_minus_1': E / P.get('eblast', 1.0) - 1.0,
-            'M_over_M0_minus_1': M / M0 - 1.0, 'ahead': ahead, 'alpha': float(s.alpha)}
+            'M_over_M0_minus_1': M / M0 - 1.0, 'ahead': ahead, 'alpha': float(s.alpha), 'lo': lo}
 def main(payload):
     out = []
     for c in payload:
@@ -95,7 +102,7 @@ def cases(rng, n):
     return out
 
 
-THRESH = {'E_over_eblast_minus_1': 2e-3, 'M_over_M0_minus_1': 2e-3, 'ahead': 1e-4}
+THRESH = {'E_over_eblast_minus_1': 2e-3, 'M_over_M0_minus_1': 2e-3, 'ahead': 1e-4, 'reused_vs_fresh': 1e-9}
 # solutions with an integrable singularity of the density (vacuum boundary with a5 < 0; origin when geometry < gamma*omega): the solver's
 # 3001-point linear interpolation cannot carry the integral; measured deficit on the unchanged tree up to 3.4e-2 (known finding
 # sedov-singular-profiles-underresolved)
@@ -107,8 +114,13 @@ def classify(c, r):
     singular_profile = r.get('type') == 'vacuum' or r.get('origin_singular')
     bad, known = {}, {}
     for k in THRESH:
+        if k not in r:
+            continue
         v = r[k]
         if abs(v) <= THRESH[k]:
+            continue
+        if k == 'reused_vs_fresh':
+            bad[k] = v
             continue
         if c.get('kind') == 'near_singular' and k == 'E_over_eblast_minus_1':
             bad[k] = v              # measured 1e-6 on the unchanged tree on both sides of the singular exponent: the loose tolerance does not apply
